@@ -1,10 +1,10 @@
 /-
   GIV.Lemmas.ParCacheStep — the transition function of GIV.Model.ParCache as an inductive relation,
-  with the regenerated facts of GIV.Gen.Par resolved.
+  with the regenerated facts of GIV.Gen.ParCache resolved.
 -/
 import GIV.Model.ParCache
 namespace GIV.ParCache
-open GIV.Gen.Par
+open GIV.Gen.ParCache
 
 theorem shapeOK_true : shapeOK = true := by decide
 theorem afterEntry_eq (k : Key) : afterEntry k = .dLoad1 k := rfl
